@@ -2,6 +2,8 @@ import FrappyDrive.C04
 import FrappyDrive.C03
 import FrappyModel.Spec.C06
 import FrappyModel.Node.DescribeDT
+import FrappyModel.Node.Retype
+import FrappyModel.Node.CreateModules
 import FrappyModel.Generated.C06
 /- line-protocol glue for C06 (node parser, oracle tables and observation parsers are those of C04) -/
 namespace Frappy.Drive.C06
@@ -126,6 +128,24 @@ def resClass : Frappy.Res Float → String
   | .error .wrongType => "WrongTypeError"
   | .error (.other c) => c
 
+def parseModCfg (j : Json) : R Create.ModCfg := do
+  return ⟨← fldStr j "name", ← fldBool j "exported", ← fldBool j "pinata", ← fldStrs j "attached", ← fldStrs j "scan"⟩
+
+def parseLimits (j : Json) : R (List (LimitKey × PVal Float)) := do
+  (← arr j).mapM (fun row => do
+    match ← arr row with
+    | [.str "min", v] => return (LimitKey.min, ← pvalOfJson v)
+    | [.str "max", v] => return (LimitKey.max, ← pvalOfJson v)
+    | _ => throw "bad limit entry")
+
+/-- the datatype operations of parameter `attr` of module `m` in a node -/
+def dtOfParam (n : Node JJ VV) (m attr : String) : Option (DtOps JJ VV) :=
+  match findModule n m with
+  | none => none
+  | some mod => mod.accs.findSome? (fun a => match a with
+      | .param p => if p.attr == attr then some p.dt else none
+      | .command _ => none)
+
 /-- one parameter of the `datatypes` verb: the datatype of the class, the limits the configuration sets, the datatype
 object of the instance, the described datainfo and payloads — everything derived by the model (`Node/DescribeDT`) -/
 def datatypeCase (p : Json) : R Json := do
@@ -137,12 +157,12 @@ def datatypeCase (p : Json) : R Json := do
     | .error _ => pure Json.null
     | .ok c => do
       let cls ← Frappy.Drive.C03.dinfoOfJson c
-      let cfg ← (← fldArr p "cfg").mapM (fun row => do
-        match ← arr row with
-        | [.str "min", v] => return (LimitKey.min, ← pvalOfJson v)
-        | [.str "max", v] => return (LimitKey.max, ← pvalOfJson v)
-        | _ => throw "bad limit entry")
-      pure (Frappy.Drive.C03.exToJson Frappy.Drive.C03.dinfoToJson (instanceDatatype D cls cfg))
+      let cfg ← parseLimits (← fld p "cfg")
+      -- ... and the limits the module set on the live object at run time (one `set_properties` call each)
+      let live ← match p.getObjVal? "live" with
+        | .ok (.arr a) => a.toList.mapM parseLimits
+        | _ => pure []
+      pure (Frappy.Drive.C03.exToJson Frappy.Drive.C03.dinfoToJson (liveDatatype D cls cfg live))
   -- instance datatype -> described datainfo
   let datainfo := Frappy.Drive.C03.exToJson jvalToJson (Frappy.Datatypes.exportDatatype D inst)
   -- payloads: the node's own datatype, and the client datatype rebuilt from the DESCRIBED datainfo
@@ -158,9 +178,33 @@ def handle (j : Json) : R Json := do
   match k with
   | "datatypes" =>
     return Json.mkObj [("params", jarr (← (← fldArr j "params").mapM datatypeCase))]
+  | "create" =>
+    -- `create_modules`: the configuration in its order + what the Pinatas yield -> module objects, registration
+    let cfg ← (← fldArr j "cfg").mapM parseModCfg
+    let pool ← (← fldArr j "pool").mapM parseModCfg
+    let k := cfg.length + pool.length + 1
+    let s := Create.createModules pool cfg k k
+    return Json.mkObj [("created", jarr (s.created.map (fun x => jarr [Json.str x.1, Json.bool x.2]))),
+                       ("export", jstrs s.registered), ("inited", jstrs s.inited), ("errors", jnat s.errors)]
   | "describe" =>
     let t ← parseTables (← fld j "oracle")
-    let (n, inits) ← parseNodeInit t (← fld j "node")
+    let (nk, inits) ← parseNodeInit t (← fld j "node")
+    -- a later phase of a node whose modules changed datatypes of live parameters: the node is DERIVED from the node of
+    -- the phase before (`prev`) by `setDt` for the touched parameters - nothing else of the report may have changed
+    let n ← match j.getObjVal? "prev" with
+      | .ok pj =>
+        if pj.isNull then pure nk else do
+        let (n0, _) ← parseNodeInit t pj
+        let mut n := n0
+        for row in ← fldArr j "touched" do
+          match ← arr row with
+          | [.str m, .str attr] =>
+            match dtOfParam nk m attr with
+            | some dt => n := setDt n m attr dt
+            | none => throw "touched parameter not found"
+          | _ => throw "bad touched entry"
+        pure n
+      | .error _ => pure nk
     let classes := (n.filter (·.exported)).map (fun m => Json.mkObj [("m", Json.str m.name),
       ("ic", jstrs (interfaceClassesOf Generated.C06.secopBaseClasses m.mro)), ("features", jstrs (featuresOf m.mro)),
       ("impl", jopt Json.str ((inits.find? (·.1 == m.name)).map (·.2.impl)))])
@@ -170,7 +214,7 @@ def handle (j : Json) : R Json := do
       | .ok a => (← arr a).mapM (fun s => do
           return (mkEnv t (← parseDrv (← fld s "drv")), ← parseReq (← fld s "req")))
     return Json.mkObj [("report", jarr ((describe predef n).map modDescJson)), ("classes", jarr classes),
-                       ("outs", jarr ((runSteps n steps).map outJson))]
+                       ("outs", jarr ((runSteps nk steps).map outJson))]
   | "judge" =>
     let t ← parseTables (← fld j "oracle")
     let (n, inits) ← parseNodeInit t (← fld j "node")
@@ -185,7 +229,35 @@ def handle (j : Json) : R Json := do
         | _ => false
       if !strict then return Json.mkObj [("bad", jarr [Json.str "report-not-strict-json", jnat 0, Json.str ""])]
     if !(stableB r1 r2) then return Json.mkObj [("bad", jarr [Json.str "unstable", jnat 0, Json.str ""])]
-    if !(listsExactlyB predef n r1) then return Json.mkObj [("bad", jarr [Json.str "lists", jnat 0, Json.str ""])]
+    -- the report of the phase before, and the parameters whose datatype module code changed since then
+    match j.getObjVal? "report0" with
+    | .ok r0j =>
+      if !r0j.isNull then
+        let r0 ← parseReport r0j
+        let touched ← (← fldArr j "touchedWire").mapM (fun row => do
+          match ← arr row with
+          | [.str m, .str a] => return (m, a)
+          | _ => throw "bad touched entry")
+        if !(stableExceptB touched r0 r1) then
+          return Json.mkObj [("bad", jarr [Json.str "unstable-untouched", jnat 0, Json.str ""])]
+    | .error _ => pure ()
+    -- registration: the module objects of the node (with their export flag) against the list the report is made from
+    -- (reported together with what the sweep finds: a module that is not registered is not described, yet reachable)
+    let mut pre : List Json := []
+    match j.getObjVal? "registry" with
+    | .ok rj =>
+      if !rj.isNull then
+        let created ← (← fldArr rj "created").mapM (fun row => do
+          match ← arr row with
+          | [.str m, .bool e] => return (m, e)
+          | _ => throw "bad registry entry")
+        let registered ← fldStrs rj "export"
+        if !(allRegisteredB created registered) then
+          pre := pre ++ [jarr [Json.str "unregistered-module", jnat 0, Json.str (",".intercalate (unregistered created registered))]]
+        else if !(reportFollowsB (registeredExported created registered) r1) then
+          pre := pre ++ [jarr [Json.str "lists", jnat 0, Json.str ""]]
+    | .error _ => pure ()
+    if pre.isEmpty && !(listsExactlyB predef n r1) then pre := pre ++ [jarr [Json.str "lists", jnat 0, Json.str ""]]
     -- interface class and features against the class chain of the implementing class
     for c in ← fldArr j "classes" do
       let m ← fldStr c "m"
@@ -205,7 +277,7 @@ def handle (j : Json) : R Json := do
     -- attribute a disagreement at a scaled limit off the grid to the recorded finding `scaled-limit-off-grid`; the
     -- finding is fixed: such a disagreement is a violation like any other)
     -- every failing item is reported (one finding must not hide another kind of failure in the same node)
-    let mut bads : List Json := []
+    let mut bads : List Json := pre
     -- requests: report against behaviour
     for s in ← fldArr j "steps" do
       let req ← parseReq (← fld s "req")
